@@ -308,7 +308,9 @@ def coalescent_case(chk, dadi, n, ep, pts, log, as_func, lib=None):
 # recorded inputs of listed findings (known_findings.json): re-evaluated on every run, so the KNOWN-FINDING line is printed while the
 # finding is open and a change of its behaviour (worse than 3 %, or no longer time-step dominated) is reported as a violation
 CORPUS = [dict(n=20, epochs=[(1.9712753538489214, 0.009960484102365889), (0.07120099208428853, 0.6906479947035272),
-                             (12.881385478601226, 0.13278337171903462)], pts=[400], log=True, as_func=False)]
+                             (12.881385478601226, 0.13278337171903462)], pts=[400], log=True, as_func=False),
+          # F-01b: the same shortfall at the corner of the box (4.13 %)
+          dict(n=30, epochs=[(0.05, 0.2), (20.0, 0.06)], pts=[80, 100, 120], log=False, as_func=False)]
 
 def coalescent_convergence(chk, ctx, rng, n_cases, tier):
     dadi = ctx['dadi']
